@@ -661,6 +661,19 @@ func (c *FnCtx) evalCall(env *SpecEnv, e *Expr) (Val, error) {
 			return Val{}, fmt.Errorf("no map iterator for loop %d", ord)
 		}
 	}
+	// ghost sums over maps: NAME(mapexpr)
+	for _, gs := range c.eng.cs.Sums {
+		if gs.Name == e.Name {
+			if err := evalArgs(); err != nil {
+				return Val{}, err
+			}
+			if len(args) != 1 {
+				return Val{}, fmt.Errorf("ghost sum %s takes the map as its argument", gs.Name)
+			}
+			c.usedSums[gs.Name] = true
+			return mathInt(sel(c.heapGet(env.heap, sumArr(gs)), args[0].S)), nil
+		}
+	}
 	// user-defined spec functions
 	if sf := c.eng.cs.SpecFuncs[e.Name]; sf != nil {
 		if err := evalArgs(); err != nil {
